@@ -78,33 +78,61 @@ def design_buffer(tier, seed):
 
 
 def design_pegcore(tier, seed):
-    """design-level model checking of spec/PegMachine.tla composed with PegContract / PegDen (no code involved)"""
+    """design-level model checking of spec/PegMachine.tla composed with PegContract / PegDen (no code involved);
+    the result depends on the specification only, so it is cached by the hash of the spec modules it uses"""
+    import fcntl
+    key = vlib.hash_tree([os.path.join(vlib.SPEC, f) for f in ("PegMachine.tla", "PegContract.tla", "PegDen.tla", "MC_PegCore.tla")]
+                         + [os.path.abspath(__file__)])
+    os.makedirs(vlib.CACHE, exist_ok=True)
+    path = os.path.join(vlib.CACHE, "design-pegcore-%s-%s-%d.json" % (key, tier, seed))
+    lock = open(os.path.join(vlib.CACHE, "lock-design-pegcore"), "w")
+    fcntl.flock(lock, fcntl.LOCK_EX)
+    try:
+        if os.path.exists(path) and not os.environ.get("VERIF_NOCACHE"):
+            return json.load(open(path))
+        for e in os.listdir(vlib.CACHE):
+            if e.startswith("design-pegcore-") and e.endswith("-%s-%d.json" % (tier, seed)):
+                os.remove(os.path.join(vlib.CACHE, e))
+        r = design_pegcore_run(tier, seed)
+        if "verdicts" not in r:
+            json.dump(r, open(path + ".tmp", "w"))
+            os.replace(path + ".tmp", path)
+        return r
+    finally:
+        fcntl.flock(lock, fcntl.LOCK_UN)
+        lock.close()
+
+
+def design_pegcore_run(tier, seed):
     import re
     import shutil
     states = trans = 0
     runs = []
-    # level 1: every operator over the atoms, all configurations; level 2: every operator over level-1 expressions,
-    # a seeded 1/Stride sample of the roots in quick, all of them in thorough
-    grid = [(1, 2, "TRUE", "TRUE", 1, 0), (2, 2, "FALSE", "FALSE", 48, seed % 48)] if tier == "quick" else \
-           [(1, 3, "TRUE", "TRUE", 1, 0), (2, 2, "TRUE", "FALSE", 1, 0)]
-    for (lv, ml, exo, allc, stride, off) in grid:
+    # (Levels, MaxLen, ExcOps, AllCfgs, Stride, Offset, Wide)
+    # level 1: every operator (wide set) over the atoms, every configuration; level 2: every unary / binary operator over
+    # atoms and level-1 expressions: a seeded 1/Stride sample of the ~1.5 million expressions
+    if tier == "quick":
+        grid = [(1, 2, "TRUE", "TRUE", 1, 0, "TRUE"), (2, 2, "TRUE", "FALSE", 500, seed % 500, "TRUE")]
+    else:
+        grid = [(1, 3, "TRUE", "TRUE", 1, 0, "TRUE"), (2, 2, "TRUE", "FALSE", 1, 0, "FALSE"), (2, 2, "TRUE", "FALSE", 40, seed % 40, "TRUE")]
+    for (lv, ml, exo, allc, stride, off, wide) in grid:
         d = tempfile.mkdtemp(prefix="mcpeg", dir=vlib.CACHE)
         cfg = os.path.join(d, "MC.cfg")
-        open(cfg, "w").write("SPECIFICATION Spec\nCONSTANTS Levels = %d MaxLen = %d ExcOps = %s AllCfgs = %s Stride = %d Offset = %d\n"
-                             "INVARIANTS NoVerdict ResultOK\nCHECK_DEADLOCK FALSE\n" % (lv, ml, exo, allc, stride, off))
+        open(cfg, "w").write("SPECIFICATION Spec\nCONSTANTS Levels = %d MaxLen = %d ExcOps = %s AllCfgs = %s Stride = %d Offset = %d Wide = %s\n"
+                             "INVARIANTS NoVerdict ResultOK\nCHECK_DEADLOCK FALSE\n" % (lv, ml, exo, allc, stride, off, wide))
         rc, txt = vlib.run(["java", "-XX:+UseParallelGC", "-Xss64m", "-Xmx24g", "-cp", vlib.TLC_JAR, "tlc2.TLC", "-workers", "16",
-                            "-metadir", os.path.join(d, "md"), "-config", cfg, "MC_PegCore.tla"], 7000, cwd=vlib.SPEC)
+                            "-metadir", os.path.join(d, "md"), "-config", cfg, "MC_PegCore.tla"], 14000, cwd=vlib.SPEC)
         shutil.rmtree(d, ignore_errors=True)
         m = re.search(r"(\d+) states generated, (\d+) distinct states found", txt)
         mi = re.search(r"Finished computing initial states: (\d+) distinct", txt)
         if rc != 0 or not m:
             if "is violated" in txt:
-                return {"verdicts": [{"p": "DESIGN", "why": "design-level: PegMachine composed with PegContract logs a verdict (Levels=%d)" % lv,
+                return {"verdicts": [{"p": "DESIGN", "why": "design-level: PegMachine composed with PegContract logs a verdict (Levels=%d Wide=%s)" % (lv, wide),
                                       "rule": "PegMachine.tla", "a": txt[-3000:], "b": 0}], "states": states, "transitions": trans}
             raise Broken("TLC failed on MC_PegCore.tla\n" + txt[-1500:])
         trans += int(m.group(1))
         states += int(m.group(2))
-        runs.append({"Levels": lv, "MaxLen": ml, "ExcOps": exo, "AllCfgs": allc, "Stride": stride,
+        runs.append({"Levels": lv, "MaxLen": ml, "ExcOps": exo, "AllCfgs": allc, "Stride": stride, "Wide": wide,
                      "runs": int(mi.group(1)) if mi else 0, "distinct": int(m.group(2))})
     return {"states": states, "transitions": trans, "design": {"MC_PegCore.tla": runs}}
 
